@@ -198,13 +198,14 @@ class Classifier:
 
             if self.pos_tol_mode == "relative":
                 self.abs_pos_tol = np.array(self.pos_tol) * global_min_dist
-            elif self.pos_tol_mode == "absolute":
-                self.abs_pos_tol = self.pos_tol
-
             if self.delaunay_threshold_mode == "relative":
                 self.abs_delaunay_threshold = self.delaunay_threshold * mean_min_dist
-            elif self.delaunay_threshold_mode == "absolute":
-                self.abs_delaunay_threshold = self.delaunay_threshold
+
+        # Absolute tolerances are used as given
+        if self.pos_tol_mode == "absolute":
+            self.abs_pos_tol = self.pos_tol
+        if self.delaunay_threshold_mode == "absolute":
+            self.abs_delaunay_threshold = self.delaunay_threshold
 
         # Get the system dimensionality
         dimensionality = matid.geometry.get_dimensionality(
